@@ -159,7 +159,10 @@ Definition c14_relayout (l : c14_layout) (m : c14_mapping) : option c14_mapping 
   end.
 
 (* ------------------------------------------------------------------ index tuples *)
-Definition c14_zrange (n : Z) : list Z := map Z.of_nat (seq 0 (Z.to_nat n)).
+(* 0, 1, ..., n-1 : the loop `for (i = 0; i < n; ++i)` *)
+Fixpoint c14_zrange_from (k : Z) (count : nat) : list Z :=
+  match count with O => [] | S c => k :: c14_zrange_from (k + 1) c end.
+Definition c14_zrange (n : Z) : list Z := c14_zrange_from 0 (Z.to_nat n).
 (* all tuples of the index space in the order of the nested loops of mdarray::init_from_mdspan
    (dimension 0 outermost) *)
 Fixpoint c14_tuples (E : list Z) : list (list Z) :=
